@@ -39,7 +39,7 @@ package kernel
 //@ func (chain *Chain) cosiSendAnnouncement
 //@   property C24
 //@   trustpre Gap asFinal IsPledging PayloadHash ConsensusThreshold
-//@   requires ChainOK(chain) && AggsShape(chain) && VerifiersOK(chain) && !isnil(chain.persistStore)
+//@   requires CosiChainOK(chain) && AggsShape(chain) && VerifiersOK(chain) && !isnil(chain.persistStore)
 //@   requires m != nil && m.Snapshot != nil && m.data != nil && m.data.CN != nil && m.Snapshot.Timestamp < 9223372036854775808
 //@   requires chain.node.Peer != nil
 //@   maypanic
